@@ -16,9 +16,11 @@ Inductive case :=
    cls: 0 accepted, 1 refused by the call, 2 refused through the callback *)
 | CImport (nodes : list parent) (c : candidate) (reader : option Z) (active : list Z) (cls : N).
 
-(* short constructors for the cases files; a 32-byte block id is written as one number
-   (big-endian), the empty id as [] *)
-Definition id32 (n : N) : bytes := be_bytes 32 n.
+(* short constructors for the cases files.  Block ids are 32-byte hashes; the model only
+   compares them, and parsing thousands of 256-bit literals dominates the run, so the
+   harness numbers the distinct ids of a run (injectively) and writes `idt k` for the k-th;
+   the empty id is [] *)
+Definition idt (k : N) : bytes := be_bytes 4 k.
 Definition mkP (h : Z) (id : bytes) (ts ver : Z) (voters : option (list N)) : parent :=
   {| p_height := h; p_id := id; p_ts := ts; p_next_version := ver; p_voters := voters |}.
 Definition mkV (ts : Z) (signer : option N) (for_id : bytes) : vote :=
